@@ -134,7 +134,7 @@ def _cfg(rng):
 
 def _cfg_neighbour(cfg, rng):
     c = copy.deepcopy(cfg)
-    kind = rng.choice(["output_levels", "full_output", "nx", "halo", "analytic", "precision", "tower", "z_m", "met"])
+    kind = rng.choice(["output_levels", "full_output", "nx", "halo", "analytic", "precision", "tower", "z_m", "met", "closure", "forcing", "ny", "modes", "xmax", "mol"])
     d = c["domain"]
     if kind == "output_levels":
         d.pop("full_output", None)
@@ -156,6 +156,21 @@ def _cfg_neighbour(cfg, rng):
         c["towers"][0]["z_m"] += 1.0
     elif kind == "met":
         c["met"]["wind_dir"] += 20.0
+    elif kind == "closure":
+        c["solver"]["closure"] = "CONSTANT" if c["solver"]["closure"] == "MOST" else "MOST"
+    elif kind == "forcing":
+        if "z0" in c["met"]:
+            c["met"].pop("z0")
+        else:
+            c["met"]["z0"] = 0.07  # z0 takes precedence over ustar
+    elif kind == "ny":
+        d["ny"] += rng.choice([-1, 1, 2])
+    elif kind == "modes":
+        d["modes"] = rng.choice([m for m in ([4, 4], [8, 8], [6, 4], [4, 6]) if m != d["modes"]])
+    elif kind == "xmax":
+        d["xmax"] = d["xmax"] * 1.25
+    elif kind == "mol":
+        c["met"]["mol"] = -80.0 if c["met"]["mol"] != -80.0 else 150.0
     return c, kind
 
 
@@ -791,6 +806,8 @@ def execute(job):
         return execute_enum_kill(job)
     if kind == "xproc":
         return execute_xproc(job)
+    if kind == "many":
+        return execute_many(job)
     raise HarnessError("unknown job kind " + kind)
 
 
@@ -1108,6 +1125,40 @@ def execute_xproc(job):
     return out
 
 
+def execute_many(job):
+    """A directory with many entries: the first and the last request must still
+    be served from it (a size cap or an index that degrades would show here)."""
+    from bldfm.cache import GreensFunctionCache
+    from bldfm.solver import steady_state_transport_solver as solve
+
+    spec = dict(job["spec"])
+    out = {"status": "ok", "cases": 0, "kind": "many"}
+    try:
+        os.chdir(job["run_dir"])
+        c = GreensFunctionCache(CACHE_DIR)
+        n = job["n"]
+        for k in range(n):
+            s2 = dict(spec, meas_pt=[spec["meas_pt"][0] + 0.5 * k, spec["meas_pt"][1]])
+            solve(**S.build_args(s2), cache=c)
+        for k in (0, n // 2, n - 1):
+            s2 = dict(spec, meas_pt=[spec["meas_pt"][0] + 0.5 * k, spec["meas_pt"][1]])
+            args = S.build_args(s2)
+            exp = solve(**args, cache=None)
+            b = _counts["ivp"] + _counts["fft"]
+            res = solve(**args, cache=GreensFunctionCache(CACHE_DIR))
+            if _counts["ivp"] + _counts["fft"] != b:
+                raise Violation("effective", "re-solved", f"request {k} of {n} stored ones was solved again although nothing happened to its entry", {"halo": "many-entries"})
+            cmpres = compare_result(res, exp, True)
+            if cmpres not in (None, "inexact"):
+                raise Violation("transparent", "wrong-result", f"request {k} of {n}: field {cmpres[0]}: {cmpres[1]}", {"cause": ["many-entries"]})
+            out["cases"] += 1
+        out["entries"] = len(os.listdir(CACHE_DIR))
+    except Violation as v:
+        out["status"] = "violation"
+        out["violation"] = v.as_dict()
+    return out
+
+
 def execute_enum_kill(job):
     """Ground truth for the 'kill' crash model: a real child process is really
     SIGKILLed at the k-th file operation of a storing request (its user-space
@@ -1245,6 +1296,8 @@ def plan(tier, master_seed, runs=None):
             enum_jobs.append({"kind": "enum_journal", "spec": spec, "lo": lo, "hi": lo + 10})
         for lo in range(0, 100, 10):
             enum_jobs.append({"kind": "enum_kill", "spec": spec, "lo": lo, "hi": lo + 10})
+        if e == 0:
+            enum_jobs.append({"kind": "many", "spec": spec, "n": 130 if tier == "quick" else 600})
         if e < 2:
             enum_jobs.append({"kind": "xproc", "spec": spec, "hashseeds": [1 + e, 4242 + e], "timeout": 900})
     # enumeration first: it is the exhaustive part
